@@ -192,29 +192,6 @@ Proof.
   - exact R1.
 Qed.
 
-(* session.ensureQueryBasedGroups *)
-Lemma ensure_query_groups_spec : forall c c' evs,
-  NoDup (c_groups c) ->
-  ensure_query_groups E c = (c', evs) ->
-  c' = with_groups c (c_groups c')
-  /\ NoDup (c_groups c')
-  /\ Consistent E c'
-  /\ group_events_sum evs (c_groups c) = c_groups c'
-  /\ (forall g, ~ (In g (all_groups E) /\ uses_query E g = true) -> (In g (c_groups c') <-> In g (c_groups c)))
-  /\ (evs = [] /\ c_groups c' = c_groups c \/ exists a r, evs = [EGroupsChanged a r]).
-Proof.
-  intros c c' evs Hnd H. unfold ensure_query_groups in H.
-  destruct (reevaluate_query_groups E c) as [[cur added] removed] eqn:HR.
-  destruct (reevaluate_query_groups_spec c cur added removed Hnd HR) as [N1 [C1 [_ [_ [St R1]]]]].
-  inversion H; subst c' evs. cbn [c_groups with_groups].
-  split; [destruct c; reflexivity|]. split; [exact N1|]. split; [exact C1|].
-  split; [rewrite sum_groups_event; symmetry; exact R1|]. split; [exact St|].
-  destruct added as [|a added]; [destruct removed as [|r removed]|]; cbn [groups_event].
-  - left. split; [reflexivity | exact R1].
-  - right. eexists; eexists; reflexivity.
-  - right. eexists; eexists; reflexivity.
-Qed.
-
 (* modifiers.ReevaluateGroups: additionally a non-active contact leaves all its groups *)
 Lemma reevaluate_groups_spec : forall c c' evs,
   wf_contact E c ->
